@@ -157,3 +157,32 @@ Proof.
   split; [|split; [unfold dom4; lia|split; [lia|discriminate]]].
   intros j. qc_unf. rewrite <- Qcz_add. change (Qcz 1) with 1%Qc. ring.
 Qed.
+
+(** ** Identity map on the multi-bunch grid (family run).  [ident_apply] (Model/Copy.v) is the copy loop of
+    Identity::apply with the element count and the source/destination indices GENERATED from inc/SM/Identity.hpp
+    (Gen/Gen_Identity.v): every cell of every bunch is handed on unchanged, nothing beyond the nb*nx*ny cells of the
+    target is touched, hence the total charge of the grid is the same - for every bunch count and grid size.
+    (A copy of one bunch only, or one element short, makes [id_count_model] and with it these theorems fail.) *)
+From Inovesa Require Import Gen.Gen_Identity Model.Copy Proofs.CopyP.
+
+Theorem C01_identity_data_unchanged :
+  forall nb n (D old : Z -> Qc) i, 0 <= i < nb * n * n -> ident_apply nb n n D old i = D i.
+Proof. exact ident_copies. Qed.
+Print Assumptions C01_identity_data_unchanged.
+
+Theorem C01_identity_touches_nothing_else :
+  forall nb n (D old : Z -> Qc) i, i < 0 \/ nb * n * n <= i -> ident_apply nb n n D old i = old i.
+Proof. exact ident_leaves_rest. Qed.
+Print Assumptions C01_identity_touches_nothing_else.
+
+Theorem C01_identity_conserves_grid :
+  forall nb n (D old : Z -> Qc),
+    sumZ (K:=QcF) 0 (Z.to_nat (nb * n * n)) (ident_apply nb n n D old) = sumZ (K:=QcF) 0 (Z.to_nat (nb * n * n)) D.
+Proof. exact ident_conserves_grid. Qed.
+Print Assumptions C01_identity_conserves_grid.
+
+(** computed instance: three bunches of 2x2 cells over a target that held other data *)
+Example C01_identity_example :
+  map (ident_apply 3 2 2 (fun i => Qcz (i * i - 7)) (fun _ => Qcz 99)) (zrange 14)
+  = map (fun i => Qcz (i * i - 7)) (zrange 12) ++ (Qcz 99 :: Qcz 99 :: nil).
+Proof. vm_compute. reflexivity. Qed.
